@@ -13,15 +13,17 @@ NodeOps(t) ==
   \cup (IF t = "proof" THEN {Op("proof_drop", "")} ELSE {})
 Case(a, t, h, o) == [actor |-> a, target |-> t, how |-> h, op |-> o]
 Cases ==
-  {Case(a, t, h, o) : a \in ActorNames, t \in Internal, h \in {"own", "ref"}, o \in UNION {NodeOps(x) : x \in Internal}}
+  {Case(a, t, h, o) : a \in ActorNames, t \in Internal, h \in {"own", "own2", "ref"}, o \in UNION {NodeOps(x) : x \in Internal}}
   \cup {Case(a, t, "ref", o) : a \in ActorNames, t \in Global, o \in {Op("drop", ""), Op("globalize", "none"), Op("globalize", "own"), Op("call", ""), Op("kv_open", "")}}
   \cup {Case(a, "self", "recv", o) : a \in {x \in ActorNames : Actors[x].recv # None},
                                      o \in {Op("drop", ""), Op("globalize", "none"), Op("globalize", "own"), Op("call", ""), Op("kv_open", "")}}
   \cup {Case(a, "none", "own", o) : a \in ActorNames,
           o \in {Op("new_object", n) : n \in {"X", "Y", "Outer", "Inner", "Nope"}}
                 \cup {Op(k, h) : k \in {"field_read", "field_write", "kv"}, h \in {"SELF", "OUTER"}}}
-Usable == {x \in Cases : x.target \in {"self", "none"} \/ x.op \in NodeOps(x.target)
-                         \/ (x.target \in Global)}
+\* (a proof that has crossed one function boundary is `restricted` and may not be moved across a second
+\* one - a rule of the resource package about proofs, not modelled here: no proof x own2 cases)
+Usable == {x \in Cases : /\ x.target \in {"self", "none"} \/ x.op \in NodeOps(x.target) \/ x.target \in Global
+                         /\ ~(x.target = "proof" /\ x.how = "own2")}
 Init == c \in Usable
 Next == UNCHANGED c
 Spec == Init /\ [][Next]_c
